@@ -1,6 +1,7 @@
 (* C04 — substitution is function composition and dependent variables are recovered. *)
 Require Import Ommx.Num Ommx.Poly Ommx.Msg Ommx.Eval Ommx.Tree Ommx.Arith Ommx.ArithProofs Ommx.Inst
-        Ommx.Transform Ommx.TransformProofs Ommx.Subst Ommx.SubstProofs.
+        Ommx.Transform Ommx.TransformProofs Ommx.Subst Ommx.SubstProofs Ommx.DepsOrder.
+From Coq Require Import Permutation.
 From Coq Require Import String.
 Close Scope string_scope. Open Scope list_scope. Open Scope Qc_scope.
 
@@ -35,6 +36,25 @@ Theorem C04_deps_terminates : forall n m bucket s,
   eval_deps_fuel (S n) bucket (List.length bucket) s = eval_deps_fuel (S m) bucket (List.length bucket) s.
 Proof. exact eval_deps_fuel_irrelevant. Qed.
 Print Assumptions C04_deps_terminates.
+
+
+(* regardless of internal map iteration order: any reordering of the dependency map succeeds as
+   well and reports the same value for every id *)
+Theorem C04_deps_order_free : forall deps deps' s s1,
+  NoDup (dkeys deps) -> (forall d, In d (dkeys deps) -> sget s d = None) ->
+  Permutation deps deps' -> eval_deps deps s = Some s1 ->
+  exists s2, eval_deps deps' s = Some s2 /\ forall i, sget s2 i = sget s1 i.
+Proof. exact eval_deps_order_free. Qed.
+Print Assumptions C04_deps_order_free.
+
+(* completeness: the pass fails exactly when NO order exists in which the dependencies can be
+   evaluated one after the other (seq_ok: each function evaluates in the state extended by the
+   values before it) -- i.e. exactly for cycles and references to variables without a value *)
+Theorem C04_deps_fails_iff : forall deps s,
+  NoDup (dkeys deps) -> (forall d, In d (dkeys deps) -> sget s d = None) ->
+  (eval_deps deps s = None <-> ~ exists o s1, Permutation o deps /\ seq_ok s o s1).
+Proof. exact eval_deps_fails_iff. Qed.
+Print Assumptions C04_deps_fails_iff.
 
 (* non-vacuity: x2 := x1 + 1 substituted into x1*x2, and a chain d12 = d11 + 1, d11 = 2*x1 given in
    the "wrong" order; a cycle fails as a whole *)
